@@ -601,10 +601,13 @@ class Interp:
         if f.kind == "unsupported-decorator":
             raise Unsupported(f"decorator on {f.qualname}")
         stub = ctx.contracts.get(f.qualname)
-        if stub is not None and f.qualname != ctx.target:
+        # the function under verification is interpreted once; its recursive calls use its own contract
+        if stub is not None and (f.qualname != ctx.target or getattr(ctx, "target_active", False)):
             ctx.stats["contract_calls"][f.qualname] = ctx.stats["contract_calls"].get(f.qualname, 0) + 1
             return stub(self, f, args, kwargs)
-        if f.qualname != ctx.target:
+        if f.qualname == ctx.target:
+            ctx.target_active = True
+        else:
             ctx.stats["inlined"].add(f.qualname)
         if ctx.depth > self.max_depth:
             raise Unsupported("recursion depth")
@@ -1561,6 +1564,9 @@ class AbsSeq(NativeAbs):
         self.contract = contract
         self.maps = []      # element-wise functions applied to the base element (comprehensions, imap, ...)
 
+    def hasattr(self, it, name):
+        return hasattr([], name)
+
     def derive(self, fn, name=None):
         d = AbsSeq(name or (self.name + "'"), self.contract, self.length)
         d.maps = self.maps + [fn]
@@ -1598,6 +1604,14 @@ class AbsAcc(NativeAbs):
     def iterate(self, it):
         raise Unsupported(f"iteration over accumulator {self.name}")
 
+    def binop(self, it, T, other, reflected):
+        # acc + other / acc += other: an accumulator denoting the concatenation (ghost)
+        if T is not ast.Add:
+            raise Unsupported("operator on accumulator")
+        parts = [other, self] if reflected else [self, other]
+        r = AbsAcc(f"({parts[0]!r}++{parts[1]!r})", z3.IntVal(0), {"concat": parts})
+        return r
+
 
 class _AccMethod(NativeAbs):
     def __init__(self, acc, name):
@@ -1608,6 +1622,8 @@ class _AccMethod(NativeAbs):
         it.ctx.cwrites.append(id(self.acc))
         if self.name == "append":
             self.acc.tail.append(args[0])
+        elif isinstance(args[0], AbsAcc):
+            self.acc.tail.append(("splice", args[0]))
         else:
             self.acc.tail.extend(it.iterate(args[0]))
         return None
